@@ -43,7 +43,27 @@ def gen_moves(rng, exact, n):
     return ops
 
 
+def gen_weak_coupling(rng):
+    """a barely coupling transform and many tiny partial-axis steps: every step must still mention the coupled axis"""
+    ops = [("rotate", rng.choice([0.002, 0.01, 0.03, 0.2]), rng.choice("xyz")),
+           ("move", [X.grid(rng, 64), X.grid(rng, 64), X.grid(rng, 64)], None)]
+    if rng.random() < 0.5:
+        ops.append(("dist", "rel"))
+    rel = ops[-1] == ("dist", "rel")
+    pos = [float(v) for v in ops[1][1]]
+    for _ in range(rng.randint(8, 30)):
+        i = rng.randrange(3)
+        step = rng.choice([1 / 512, 1 / 256, 1 / 128, 1 / 32]) * rng.choice([1, -1])
+        req = [None, None, None]
+        pos[i] += step
+        req[i] = step if rel else pos[i]
+        ops.append(("move", req, None))
+    return {"exact": False, "dp": 9, "cls": "core", "ops": ops}
+
+
 def gen_case(rng):
+    if rng.random() < 0.08:
+        return gen_weak_coupling(rng)
     exact = rng.random() < 0.45
     budget = {"log": 0.0, "max": 6.0 if exact else 4.0}
     ops = []
